@@ -29,6 +29,7 @@ type vAdminWorld struct {
 	w       *vWorld
 	dir     string
 	members map[string]bool
+	users   []string
 }
 
 var vAdminSeq int
@@ -38,7 +39,7 @@ func newAdminWorld(users []string) *vAdminWorld {
 	dir, err := os.MkdirTemp(vWorkDir, "gitdb")
 	vMust(err)
 	vMust(os.WriteFile(filepath.Join(dir, "permitted-groups.json"), []byte(`[".*"]`), 0644))
-	g := &vAdminWorld{w: w, dir: dir, members: map[string]bool{}}
+	g := &vAdminWorld{w: w, dir: dir, members: map[string]bool{}, users: users}
 	g.writeGroups()
 	vAdminSeq++
 	db, err := gitdb.New2(gitdb.Config{Config: repowatch.Config{LocalRepositoryDirectory: dir, CheckInterval: time.Second}},
@@ -60,8 +61,14 @@ func (g *vAdminWorld) writeGroups() {
 		}
 	}
 	sort.Strings(admins)
-	// a user removed from the administrators' group is in no group at all (off-boarding); "staff" keeps the file non-trivial
-	b, _ := json.Marshal([]map[string]interface{}{{"Name": vAdminGroup, "UserMembers": admins}, {"Name": "staff", "UserMembers": []string{"zoe"}}})
+	// everybody, administrator or not, is in several other groups: names that sort before and after the administrators'
+	// group, and names that only resemble it (shorter, longer, other case) - none of them makes an administrator
+	everybody := append([]string{"zoe"}, g.users...)
+	gl := []map[string]interface{}{{"Name": vAdminGroup, "UserMembers": admins}}
+	for _, n := range []string{"engineering", "staff", "keymaster-admin", vAdminGroup + "-emeritus", "Keymaster-Admins", "zz-" + vAdminGroup} {
+		gl = append(gl, map[string]interface{}{"Name": n, "UserMembers": everybody})
+	}
+	b, _ := json.Marshal(gl)
 	tmp := filepath.Join(g.dir, ".groups.tmp")
 	vMust(os.WriteFile(tmp, b, 0644))
 	vMust(os.Rename(tmp, filepath.Join(g.dir, "groups.json")))
